@@ -416,6 +416,8 @@ type H1Upstream struct {
 	Wedged          bool
 	Abandoned       bool // MOSN gave up an exchange on this connection (no reply sent before the next request or close)
 	ReqAfterAbandon int
+	SaidClose       bool // sent a response with "Connection: close" (and keeps the socket open for a while)
+	ReqAfterClose   int  // requests that arrived on this connection after that
 	lastDone        bool
 }
 
@@ -464,6 +466,9 @@ func (u *H1Upstream) OnData(c *sim.Conn, b []byte) {
 		if u.InFlight > 0 {
 			// a second request while the previous exchange has not completed
 			u.ReqAfterAbandon++
+		}
+		if u.SaidClose {
+			u.ReqAfterClose++
 		}
 		u.InFlight++
 		if u.InFlight > u.MaxInFlight {
@@ -514,6 +519,21 @@ func (u *H1Upstream) react(c *sim.Conn, r *ReqRec, up *UpRec) {
 		})
 	case "reply_close":
 		u.S.After(a.Delay, lab, func() { u.send(c, up, mk()); finish(); c.PeerClose() })
+	case "reply_connclose":
+		// the response announces the close ("Connection: close"); the socket stays open for a while
+		u.S.Fault("up_connection_close_header")
+		u.S.After(a.Delay, lab, func() {
+			m := u.ReplyBuilder(u, r, up)
+			m.Headers = append(m.Headers, KV{K: "Connection", V: "close"})
+			u.send(c, up, BuildH1(m))
+			finish()
+			u.SaidClose = true
+			u.S.After(a.Delay2+200*time.Millisecond, lab+":close", func() {
+				if !c.PeerDone() {
+					c.PeerClose()
+				}
+			})
+		})
 	case "garbage_reply", "corrupt_reply":
 		u.S.Fault("up_" + a.Kind)
 		u.S.After(a.Delay, lab, func() {
